@@ -78,7 +78,19 @@ def handleE (j : Json) : Except String Json := do
   let what ← j.getObjValAs? String "what"
   match what with
   | "step" => do
-    let pre ← j.getObjValAs? Raft.Node "pre"
+    let pre0 ← j.getObjValAs? Raft.Node "pre"
+    -- optional `preOp`: an operation the model performs first (composite steps: the model's atomic
+    -- snapRun, then the event that in the implementation fell between capture and write)
+    let preOp? : Option Op ← match (j.getObjVal? "preOp").toOption with
+      | some Json.null => pure none
+      | some jo => do pure (some (← parseOp jo))
+      | none => pure none
+    let mid := match preOp? with
+      | some p => pre0.step p [] []
+      | none => pre0
+    if preOp?.isSome && mid.panicked.isSome then
+      return Json.mkObj [("outcomes", Json.arr #[Json.str (outcome mid pre0.retain pre0.shutdownOnRemove).compress])]
+    let pre := if preOp?.isSome then mid.canon else pre0
     let op ← parseOp (← j.getObjVal? "op")
     let rollAt ← j.getObjValAs? (List Nat) "rollAt"
     let ids := ((pre.configs.latest.ids ++ pre.ldr.repls.map (·.id)).eraseDups).filter (· != pre.nid)
@@ -89,7 +101,16 @@ def handleE (j : Json) : Except String Json := do
       if level ≤ 1 then ps.map (fun p => List.replicate 8 p)
       else if level = 2 then ps.flatMap (fun p => ps.map (fun q => p :: List.replicate 7 q))
       else ps.flatMap (fun p => ps.flatMap (fun q => ps.map (fun r => p :: q :: List.replicate 6 r)))
-    let outs := orderss.map (fun o => (outcome (pre.step op rollAt o) pre.retain pre.shutdownOnRemove).compress)
+    -- optional `postOp`: an operation the model performs after the main one (the other linearisation of a
+    -- composite step); crash images are those of the last operation only
+    let postOp? : Option Op ← match (j.getObjVal? "postOp").toOption with
+      | some Json.null => pure none
+      | some jo => do pure (some (← parseOp jo))
+      | none => pure none
+    let fin := fun (s : Raft.Node) => match postOp? with
+      | some p => if s.panicked.isSome then s else s.canon.step p [] []
+      | none => s
+    let outs := orderss.map (fun o => (outcome (fin (pre.step op rollAt o)) pre.retain pre.shutdownOnRemove).compress)
     pure (Json.mkObj [("outcomes", Json.arr ((outs.eraseDups.map Json.str).toArray))])
   | "crashRestart" => do
     let pre ← j.getObjValAs? Raft.Node "pre"
